@@ -17,6 +17,35 @@ fn rust_collision(s: &ASchema) -> bool {
     s.types.iter().any(|t| matches!(t, AType::Enum { values, .. } if values.iter().any(|v| v == "self") && values.iter().any(|v| v == "Self")))
 }
 
+fn fixed_pairs() -> Vec<(ASchema, ADoc)> {
+    let f = |n: &str, t: ATy| AField { name: n.into(), ty: t, dep: None };
+    let obj = |name: &str, fields: Vec<AField>| AType::Object { name: name.into(), implements: vec![], fields, ext_fields: vec![] };
+    let fld = |n: &str, sub: Vec<ASel>| ASel::Field { alias: None, name: n.into(), sub };
+    let nn = |t: ATy| ATy::NonNull(Box::new(t));
+    let schema = ASchema {
+        types: vec![
+            obj("User", vec![f("id", ATy::named("ID")), f("key", nn(ATy::named("ID"))), f("name", nn(ATy::named("String"))), f("age", ATy::named("Int")), f("friends", ATy::List(Box::new(nn(ATy::named("User")))))]),
+            obj("Query", vec![f("user", ATy::named("User")), f("me", nn(ATy::named("User")))]),
+        ],
+        query: Some("Query".into()),
+        mutation: None,
+        subscription: None,
+    };
+    let doc = ADoc {
+        ops: vec![AOp {
+            kind: "query",
+            name: "Users".into(),
+            vars: vec![],
+            sels: vec![
+                fld("user", vec![fld("id", vec![]), fld("name", vec![]), fld("age", vec![]), fld("friends", vec![fld("key", vec![]), fld("name", vec![])])]),
+                fld("me", vec![fld("key", vec![]), fld("name", vec![])]),
+            ],
+        }],
+        frags: vec![],
+    };
+    vec![(schema, doc)]
+}
+
 pub fn run(a: &Args) -> i32 {
     let mut rep = Report::new(
         "C09",
@@ -44,10 +73,20 @@ pub fn run(a: &Args) -> i32 {
     let mut pairs: Vec<Pair> = Vec::new();
     let mut codes: Vec<CaseCode> = Vec::new();
     let mut attempts = 0;
+    // fixed pairs first: struct-only operations (where `Default` can be derived) with nullable and non-null IDs
+    let mut fixed = fixed_pairs().into_iter();
     while pairs.len() < n && attempts < 3 * n {
         attempts += 1;
-        let schema = random_schema(&mut rng, &SchemaKnobs::default());
-        let doc = random_doc(&mut rng, &schema, &OpKnobs::default());
+        let fixed_case = fixed.next();
+        let is_fixed = fixed_case.is_some();
+        let (schema, doc) = match fixed_case {
+            Some(x) => x,
+            None => {
+                let schema = random_schema(&mut rng, &SchemaKnobs::default());
+                let doc = random_doc(&mut rng, &schema, &OpKnobs::default());
+                (schema, doc)
+            }
+        };
         let sdl = schema.to_sdl(&RenderKnobs::default());
         let qtext = doc.render();
         let no_serialize = doc.has_recursive_fragment();
@@ -92,6 +131,15 @@ pub fn run(a: &Args) -> i32 {
             (RealOutcome::Ok(t), Some(m)) => (t.clone(), m),
             _ => continue,
         };
+        // `Default` can be derived when every generated type is a struct (the generated enums do not implement it):
+        // one more derive that must not change what is accepted
+        let structs_only = bmods.iter().all(|m| m.items.iter().all(|i| !matches!(i.head(), Some("gqlenum") | Some("tagged") | Some("oneof") | Some("oneOf"))));
+        if structs_only && !no_serialize && (is_fixed || rng.chance(70)) {
+            let cur = var.response_derives.clone().unwrap_or_default();
+            var.response_derives = Some(if cur.is_empty() { "Default".to_string() } else { format!("{},Default", cur) });
+            changed += 1;
+            rep.count("option:derive-default");
+        }
         let mut prelude_extra = String::new();
         // (the consumer-supplied enum is a copy of the baseline's: it carries the baseline's derives)
         if !var.normalization_rust && var.response_derives == base.response_derives && rng.chance(60) {
